@@ -1,0 +1,48 @@
+//! Verification hooks (feature `verif-hooks`): seams the /verif harness drives.
+//! Nothing here is compiled into normal builds.
+use std::cell::{Cell, RefCell};
+use std::collections::VecDeque;
+use std::time::Duration;
+
+thread_local! {
+    static CLOCK_OFFSET: Cell<Duration> = const { Cell::new(Duration::ZERO) };
+    static VERIFY_CALLS: Cell<u64> = const { Cell::new(0) };
+    static RNG_SCRIPT: RefCell<Option<VecDeque<u8>>> = const { RefCell::new(None) };
+}
+static BASE: std::sync::OnceLock<std::time::Instant> = std::sync::OnceLock::new();
+
+pub mod clock {
+    /// Stand-in for `std::time::Instant` at call sites of `Instant::now()`.
+    pub struct Instant;
+    impl Instant {
+        pub fn now() -> std::time::Instant {
+            *super::BASE.get_or_init(std::time::Instant::now) + super::CLOCK_OFFSET.with(|c| c.get())
+        }
+    }
+}
+pub fn advance_clock(d: Duration) { CLOCK_OFFSET.with(|c| c.set(c.get() + d)); }
+pub fn reset_clock() { CLOCK_OFFSET.with(|c| c.set(Duration::ZERO)); }
+pub fn count_verify() { VERIFY_CALLS.with(|c| c.set(c.get() + 1)); }
+pub fn verify_calls() -> u64 { VERIFY_CALLS.with(|c| c.get()) }
+
+/// Install (or clear) the byte script served by [`rng`].
+pub fn set_rng_script(bytes: Option<Vec<u8>>) { RNG_SCRIPT.with(|s| *s.borrow_mut() = bytes.map(VecDeque::from)); }
+pub fn rng_script_remaining() -> Option<usize> { RNG_SCRIPT.with(|s| s.borrow().as_ref().map(|q| q.len())) }
+
+pub struct VerifRng;
+pub fn rng() -> VerifRng { VerifRng }
+impl rand::RngCore for VerifRng {
+    fn next_u32(&mut self) -> u32 { let mut b = [0u8; 4]; self.fill_bytes(&mut b); u32::from_le_bytes(b) }
+    fn next_u64(&mut self) -> u64 { let mut b = [0u8; 8]; self.fill_bytes(&mut b); u64::from_le_bytes(b) }
+    fn fill_bytes(&mut self, dest: &mut [u8]) {
+        let scripted = RNG_SCRIPT.with(|s| {
+            let mut s = s.borrow_mut();
+            match s.as_mut() {
+                Some(q) => { for d in dest.iter_mut() { *d = q.pop_front().expect("verif rng script exhausted"); } true }
+                None => false,
+            }
+        });
+        if !scripted { rand::RngCore::fill_bytes(&mut rand::thread_rng(), dest); }
+    }
+    fn try_fill_bytes(&mut self, dest: &mut [u8]) -> Result<(), rand::Error> { self.fill_bytes(dest); Ok(()) }
+}
